@@ -153,24 +153,24 @@ type frame struct {
 }
 
 type state struct {
-	phi    map[*ssa.Phi]ssa.Value
-	mem    map[ssa.Value]ssa.Value
-	bind   map[ssa.Value]ssa.Value // parameters and free variables of inlined frames
-	facts  map[ssa.Value]*fact
-	events []Event
-	blocks []*ssa.BasicBlock
+	phi     map[*ssa.Phi]ssa.Value
+	mem     map[ssa.Value]ssa.Value
+	bind    map[ssa.Value]ssa.Value // parameters and free variables of inlined frames
+	facts   map[ssa.Value]*fact
+	events  []Event
+	blocks  []*ssa.BasicBlock
 	blockEv []int
-	fr     *frame
+	fr      *frame
 }
 
 func (st *state) clone() *state {
 	n := &state{
-		phi:    make(map[*ssa.Phi]ssa.Value, len(st.phi)),
-		mem:    make(map[ssa.Value]ssa.Value, len(st.mem)),
-		bind:   make(map[ssa.Value]ssa.Value, len(st.bind)),
-		facts:  make(map[ssa.Value]*fact, len(st.facts)),
-		events: append([]Event(nil), st.events...),
-		blocks: append([]*ssa.BasicBlock(nil), st.blocks...),
+		phi:     make(map[*ssa.Phi]ssa.Value, len(st.phi)),
+		mem:     make(map[ssa.Value]ssa.Value, len(st.mem)),
+		bind:    make(map[ssa.Value]ssa.Value, len(st.bind)),
+		facts:   make(map[ssa.Value]*fact, len(st.facts)),
+		events:  append([]Event(nil), st.events...),
+		blocks:  append([]*ssa.BasicBlock(nil), st.blocks...),
 		blockEv: append([]int(nil), st.blockEv...),
 	}
 	for k, v := range st.phi {
@@ -731,9 +731,18 @@ func intrinsicNonNil(v ssa.Value) bool {
 		return true
 	case *ssa.MakeInterface:
 		return true
-	case *ssa.Slice:
-		_ = x
-		return false
+	case *ssa.Call:
+		if f := x.Call.StaticCallee(); f != nil && f.Pkg != nil {
+			switch f.Pkg.Pkg.Path() + "." + f.Name() {
+			case "fmt.Errorf", "errors.New":
+				return true
+			}
+		}
+	case *ssa.UnOp:
+		// package level error sentinels are initialised once and never nil
+		if g, ok := x.X.(*ssa.Global); ok && x.Op == token.MUL && g.Type().String() == "*error" {
+			return true
+		}
 	}
 	return false
 }
